@@ -1275,6 +1275,97 @@ fn tag_max_family(out: &mut Out, semver: bool) {
     }
 }
 
+// ------------------------------------------------------------------ sequencing of the levels (C05): apply_component_processing
+// "the result equals processing the levels epoch, major, minor, patch, core section, pre-release label, pre-release number, post,
+// dev, extra-core section, build section in that order": the real per-level handlers (each under a Verus contract) are applied in
+// the documented order by hand and the outcome is compared with the real apply_component_processing.
+
+fn bump_sequence_family(out: &mut Out) {
+    use zerv::cli::version::args::resolved::ResolvedArgs;
+    use zerv::cli::version::args::VersionArgs;
+    use zerv::version::zerv::schema::SchemaPartName;
+    use zerv::version::zerv::{PreReleaseVar, Zerv, ZervSchema, ZervVars};
+    let fam = "bump_sequence";
+    let starts = [
+        ZervVars { major: Some(1), minor: Some(2), patch: Some(3), ..Default::default() },
+        ZervVars { major: Some(1), minor: Some(2), patch: Some(3), epoch: Some(2), pre_release: Some(PreReleaseVar { label: PreReleaseLabel::Beta, number: Some(4) }), post: Some(5), dev: Some(6), ..Default::default() },
+        ZervVars { major: Some(0), minor: None, patch: Some(9), pre_release: Some(PreReleaseVar { label: PreReleaseLabel::Alpha, number: None }), post: Some(1), ..Default::default() },
+    ];
+    let dummy = Zerv::new(ZervSchema::pep440_default().unwrap(), ZervVars::default()).unwrap();
+    let base = match ResolvedArgs::resolve(&VersionArgs::default(), &dummy) { Ok(a) => a, Err(e) => { out.cex(fam, format!("cannot build default arguments: {e}")); return; } };
+    // per numeric level: (override, bump); levels: 0 epoch 1 major 2 minor 3 patch 4 pre-release number 5 post 6 dev; 7 = label (override text, bump text)
+    let choices: [(Option<u32>, Option<u32>); 4] = [(None, None), (Some(7), None), (None, Some(2)), (Some(7), Some(1))];
+    let labels: [(Option<&str>, Option<&str>); 4] = [(None, None), (Some("rc"), None), (None, Some("beta")), (Some("alpha"), Some("rc"))];
+    let set = |a: &mut ResolvedArgs, level: usize, c: (Option<u32>, Option<u32>)| {
+        let b = c.1.map(Some);
+        match level {
+            0 => { a.overrides.epoch = c.0; a.bumps.bump_epoch = b; }
+            1 => { a.overrides.major = c.0; a.bumps.bump_major = b; }
+            2 => { a.overrides.minor = c.0; a.bumps.bump_minor = b; }
+            3 => { a.overrides.patch = c.0; a.bumps.bump_patch = b; }
+            4 => { a.overrides.pre_release_num = c.0; a.bumps.bump_pre_release_num = b; }
+            5 => { a.overrides.post = c.0; a.bumps.bump_post = b; }
+            _ => { a.overrides.dev = c.0; a.bumps.bump_dev = b; }
+        }
+    };
+    for start in &starts {
+        for i in 0..7 {
+            for j in (i + 1)..8 {
+                for ci in 1..4 {
+                    for cj in 1..4 {
+                        for extra in [None, Some("1"), Some("-1=5")] {
+                            out.cases += 1;
+                            let mut args = base.clone();
+                            set(&mut args, i, choices[ci]);
+                            if j < 7 { set(&mut args, j, choices[cj]); } else {
+                                args.overrides.pre_release_label = labels[cj].0.map(String::from);
+                                args.bumps.bump_pre_release_label = labels[cj].1.map(String::from);
+                            }
+                            match extra {
+                                Some("1") => args.bumps.bump_core = vec!["1".to_string()],
+                                Some(x) => args.overrides.core = vec![x.to_string()],
+                                None => {}
+                            }
+                            let mut real = Zerv::new(ZervSchema::pep440_default().unwrap(), start.clone()).unwrap();
+                            let r_real = real.apply_component_processing(&args);
+                            let mut hand = Zerv::new(ZervSchema::pep440_default().unwrap(), start.clone()).unwrap();
+                            let r_hand = (|| -> Result<(), zerv::error::ZervError> {
+                                hand.process_epoch(args.overrides.epoch, args.bumps.bump_epoch.flatten())?;
+                                hand.process_major(args.overrides.major, args.bumps.bump_major.flatten())?;
+                                hand.process_minor(args.overrides.minor, args.bumps.bump_minor.flatten())?;
+                                hand.process_patch(args.overrides.patch, args.bumps.bump_patch.flatten())?;
+                                hand.process_schema_section(SchemaPartName::Core, &args.overrides.core, &args.bumps.bump_core)?;
+                                hand.process_pre_release_label(&args)?;
+                                hand.process_pre_release_num(args.overrides.pre_release_num, args.bumps.bump_pre_release_num.flatten())?;
+                                hand.process_post(args.overrides.post, args.bumps.bump_post.flatten())?;
+                                hand.process_dev(args.overrides.dev, args.bumps.bump_dev.flatten())?;
+                                hand.process_schema_section(SchemaPartName::ExtraCore, &args.overrides.extra_core, &args.bumps.bump_extra_core)?;
+                                hand.process_schema_section(SchemaPartName::Build, &args.overrides.build, &args.bumps.bump_build)?;
+                                Ok(())
+                            })();
+                            let desc = format!("start {{epoch:{:?},major:{:?},minor:{:?},patch:{:?},pre:{:?},post:{:?},dev:{:?}}} level {i} {:?} + level {j} {:?} core-op {extra:?}",
+                                start.epoch, start.major, start.minor, start.patch, start.pre_release, start.post, start.dev, choices[ci], if j < 7 { format!("{:?}", choices[cj]) } else { format!("{:?}", labels[cj]) });
+                            match (r_real, r_hand) {
+                                (Ok(()), Ok(())) => {
+                                    let mut rv = real.vars.clone();
+                                    rv.bumped_timestamp = hand.vars.bumped_timestamp;
+                                    if rv != hand.vars || real.schema != hand.schema {
+                                        out.cex(fam, format!("{desc}: apply_component_processing gives epoch {:?} {:?}.{:?}.{:?} pre {:?} post {:?} dev {:?}; the levels in the documented order give epoch {:?} {:?}.{:?}.{:?} pre {:?} post {:?} dev {:?}",
+                                            real.vars.epoch, real.vars.major, real.vars.minor, real.vars.patch, real.vars.pre_release, real.vars.post, real.vars.dev,
+                                            hand.vars.epoch, hand.vars.major, hand.vars.minor, hand.vars.patch, hand.vars.pre_release, hand.vars.post, hand.vars.dev));
+                                    }
+                                }
+                                (Err(_), Err(_)) => {}
+                                (a, b) => out.cex(fam, format!("{desc}: apply_component_processing is_ok={} but the levels in the documented order is_ok={}", a.is_ok(), b.is_ok())),
+                            }
+                        }
+                    }
+                }
+            }
+        }
+    }
+}
+
 fn main() {
     let fam = std::env::args().nth(1).unwrap_or_default();
     let mut out = Out { found: 0, cases: 0, per_class: Default::default() };
@@ -1315,6 +1406,7 @@ fn run_family(fam: &str, out: &mut Out) {
         "resolve_barrier" => barrier_family(&mut out),
         "template_functions" => template_family(&mut out),
         "semver_from_zerv" => placement_family(&mut out, true),
+        "bump_sequence" => bump_sequence_family(&mut out),
         "semver_roundtrip" => semver_roundtrip_family(&mut out),
         "pep440_roundtrip" => pep440_roundtrip_family(&mut out),
         "tag_max_semver" => tag_max_family(&mut out, true),
